@@ -37,6 +37,11 @@ def _len(I, args, kw):
         return SInt(z3.Length(v.t))
     if isinstance(v, SSeq):
         return SInt(z3.Length(v.t))
+    if is_tagged(v, "range"):
+        lo, hi = ex.to_int_term(v[1]), ex.to_int_term(v[2])
+        return SInt(z3.If(hi - lo > 0, hi - lo, 0))
+    if isinstance(v, range):
+        return len(v)
     if isinstance(v, HSpecList):
         if "__len__" in v.hooks:
             return v.hooks["__len__"](ex, v, [], {})
@@ -256,6 +261,8 @@ def _float(I, args, kw):
         return SReal(r, "float") if k == "fin" else r
     if isinstance(v, (HList, HDict, HObj, tuple)) or v is None:
         ex.raise_builtin("TypeError", "float() argument")
+    if isinstance(v, SAny):
+        return ex.over_approximate("float_of_opaque", "any", "float(opaque number)")
     if ex.is_concrete(v):
         return ex.concrete_op(lambda: float(v))
     raise Unsupported(f"float of {v!r}")
@@ -459,6 +466,8 @@ def _list(I, args, kw):
     seq = ex.as_symbolic_seq(v)
     if seq is not None:
         return HList(sym=SSeq(seq.t, seq.elem))
+    if is_tagged(v, "islice", "opaque-iter") or isinstance(v, SAny):
+        return Tagged("opaque-list", v)
     raise Unsupported(f"list() of {v!r}")
 
 
@@ -517,11 +526,24 @@ def _iter(I, args, kw):
 def _islice(I, args, kw):
     ex = I.ex
     it = args[0]
-    if is_tagged(it, "opaque-iter"):
-        n = args[1] if len(args) == 2 else None
-        if isinstance(n, int) and n >= 1 and len(args) == 2:
-            return it
-    raise Unsupported("itertools.islice")
+    if is_tagged(it, "opaque-iter") and len(args) == 2 and isinstance(args[1], int) and args[1] >= 1:
+        return it
+    I.use("itertools.islice(it, start, stop): ValueError unless start/stop are None or >= 0; yields the elements start..stop-1")
+    if len(args) == 2:
+        start, stop = None, args[1]
+    else:
+        start, stop = args[1], args[2]
+        if len(args) > 3:
+            raise Unsupported("islice with step")
+    for v, what in ((start, "start"), (stop, "stop")):
+        if v is None:
+            continue
+        if isinstance(v, (SInt, int)) and not isinstance(v, bool):
+            ex.require(ex.to_int_term(v) >= 0, "ValueError", f"islice {what} must be None or >= 0")
+        else:
+            ex.raise_builtin("ValueError", f"islice {what} of wrong type")
+    ex.trace_event("islice", it, start, stop)
+    return Tagged("islice", it, start, stop)
 
 
 @ext(next)
@@ -602,6 +624,9 @@ def _range(I, args, kw):
     ex = I.ex
     if _conc(I, *args):
         return ex.concrete_op(lambda: range(*args))
+    if len(args) <= 2 and all(isinstance(a, (SInt, int)) and not isinstance(a, bool) for a in args):
+        lo, hi = (0, args[0]) if len(args) == 1 else args
+        return Tagged("range", lo, hi)
     raise Unsupported("range with symbolic bounds")
 
 
@@ -616,6 +641,8 @@ def _reversed(I, args, kw):
         r = SSeq(seq.t, seq.elem)
         r.rev = True  # element i of the view is seq[len-1-i]
         return r
+    if is_tagged(args[0], "opaque-list"):
+        return Tagged("reversed", args[0])
     raise Unsupported("reversed of symbolic data")
 
 
